@@ -154,16 +154,19 @@ theorem C07_torn_writer_progress (cfg : Cfg) (s : St) (w n : Nat) (h : s.pc w = 
     ∃ s1 s2, step cfg s (.ret w) = some s1 ∧ step cfg s1 (.close w) = some s2 ∧ s2.closing = true :=
   torn_writer_can_close cfg s w n h
 
-/-- a connection that is closing has its socket closed already or a caller inside closeWithError that can
-    close it (in the model nothing blocks that step; in the code it waits only for writers that finish) -/
+/-- a connection that is closing has its socket closed already, or a `Close()` from outside that is between its
+    `cancel()` and its `c.close()`, or a caller inside closeWithError; either can close the socket (`cancel()`, then
+    `c.close()`; in the model nothing blocks these steps; in the code they wait only for writers that finish) -/
 theorem C07_closing_progress (cfg : Cfg) (hser : cfg.serialised = true) (as : List Act) (s : St)
     (h : run cfg init as = some s) (hc : s.closing = true) :
-    s.closed = true ∨ ∃ w s1, step cfg s (.closeFinish w) = some s1 ∧ s1.closed = true := by
+    s.closed = true ∨ (∃ s1, step cfg s .shutdown = some s1 ∧ s1.closed = true) ∨
+      ∃ w s1, run cfg s [.cancelCtx w, .closeFinish w] = some s1 ∧ s1.closed = true := by
   have inv := inv_run cfg hser as init s (inv_init cfg) h
-  rcases inv.closerEx hc with h1 | ⟨w, n, hw⟩
+  rcases inv.closerEx hc with h1 | h1 | ⟨w, n, hw⟩
   · exact Or.inl h1
+  · exact Or.inr (Or.inl ⟨_, rfl, rfl⟩)
   · obtain ⟨s1, h1, h2⟩ := closer_can_finish cfg s w n hw
-    exact Or.inr ⟨w, s1, h1, h2⟩
+    exact Or.inr (Or.inr ⟨w, s1, h1, h2⟩)
 
 /-- a caller is told its write succeeded only if its whole frame is on the wire (in one piece, once) -/
 theorem C07_success_means_whole (cfg : Cfg) (hser : cfg.serialised = true) (as : List Act) (s : St)
@@ -239,7 +242,7 @@ theorem C07_nothing_after_partial_partial (cfg : Cfg) (as bs : List Act) (s s' :
 /-- non-vacuity: a coalesced flush of three frames, the second cut inside, everything accounted for -/
 example : ∃ s, run { lens := fun w => 10 * w, coalesce := true } init
     [.submit 1, .submit 2, .submit 3, .enqueue 1, .enqueue 2, .enqueue 3, .tick, .enter 1, .piece 1 3, .piece 1 7,
-     .endWrite 1 true, .enter 2, .piece 2 5, .endWrite 2 false, .ret 1, .ret 2, .ret 3, .close 3, .close 2, .closeFinish 3] = some s ∧
+     .endWrite 1 true, .enter 2, .piece 2 5, .endWrite 2 false, .ret 1, .ret 2, .ret 3, .close 3, .close 2, .cancelCtx 3, .closeFinish 3] = some s ∧
     glue s.wire = [⟨2, 0, 5⟩, ⟨1, 0, 10⟩] ∧ s.pc 1 = .done 10 true ∧ s.pc 2 = .done 5 false ∧
     s.pc 3 = .done 0 false ∧ s.closed = true := by
   refine ⟨_, rfl, ?_, ?_, ?_, ?_, ?_⟩ <;> decide
@@ -294,7 +297,7 @@ example : run { lens := fun w => 4094 + w, coalesce := false } init
     one behind it fails with 0 bytes, nothing of it reaches the wire -/
 example : ∃ s, run { lens := fun w => if w = 1 then 4096 else 64, coalesce := true } init
     [.submit 1, .submit 2, .enqueue 1, .enqueue 2, .tick, .enter 1, .piece 1 4095, .endWrite 1 false, .ret 1, .ret 2,
-     .close 1, .close 2, .closeFinish 1] = some s ∧
+     .close 1, .close 2, .cancelCtx 1, .closeFinish 1] = some s ∧
     glue s.wire = [⟨1, 0, 4095⟩] ∧ s.pc 1 = .done 4095 false ∧ s.pc 2 = .done 0 false ∧ s.closed = true := by
   refine ⟨_, rfl, ?_, ?_, ?_, ?_⟩ <;> decide
 
